@@ -334,6 +334,9 @@ func (w *world) exec(s *pstmt, f *frame, bc *blockCtx) ctl {
 		w.handled["continue:NOT FOUND"]++
 	case "call":
 		callee := w.procs[s.name]
+		for _, v := range s.preNull {
+			*f.lookup(v) = vnull
+		}
 		args := make([]value, len(callee.params))
 		for i, pa := range callee.params {
 			switch pa.mode {
